@@ -4,6 +4,7 @@ CONSTANTS
   Gs = {0, 1, 2, 4}
   Q = 4
   PDen = 4
+  Shifts <- MCShiftsQ
 INVARIANT TypeOK
 INVARIANT MassConserved
 INVARIANT MeanConserved
